@@ -41,7 +41,7 @@ func (e *Engine) libCallEffects(in ssa.CallInstruction, cell func(*ssa.Alloc), h
 	}
 	if lc != nil {
 		for _, mm := range lc.Modifies {
-			for _, h := range e.staticModHeapsLib(lc, mm) {
+			for _, h := range e.staticModHeapsLibAt(lc, mm, callRecvType(cc)) {
 				heaps[h] = true
 			}
 		}
@@ -310,4 +310,15 @@ func (e *Engine) reachProbesFor(fn *ssa.Function) bool {
 		}
 	}
 	return false
+}
+
+// callRecvType: the static type of the receiver at a call (nil for plain functions).
+func callRecvType(cc *ssa.CallCommon) types.Type {
+	if cc.IsInvoke() {
+		return cc.Value.Type()
+	}
+	if g := cc.StaticCallee(); g != nil && g.Signature.Recv() != nil && len(cc.Args) > 0 {
+		return cc.Args[0].Type()
+	}
+	return nil
 }
